@@ -126,3 +126,273 @@ Theorem C05_hypotheses_satisfiable_noignore :
 Proof. exact ex_config_no_ignore. Qed.
 Print Assumptions C05_hypotheses_satisfiable_noignore.
 
+
+(* ---- C05 at the level of Apply and Update, along every history (Proofs/RecordsHistory.v):
+   at every state satisfying the invariant of Proofs/History.v -- hence at every reachable
+   state -- the records are rewritten exactly as the property says, the sets being described
+   through the INDEPENDENT reference diff between the live object and the result:
+   the updater owns (before \ removed) + modified + added, not flagged as applied, and gets
+   the submitted object back; the applier owns exactly the field set of its configuration,
+   flagged as applied; every other manager loses exactly the removed, modified and added
+   paths and keeps version and flag; a record that becomes empty disappears. ---- *)
+From Coq Require Import List ZArith String Bool Arith Lia.
+From SMD Require Import Model.Value Model.Order Model.PathElem Model.PathSet Model.Schema Model.Walk
+  Model.Validate Model.FieldSet Model.Remove Model.Merge Model.Compare Model.Matcher Model.Reconcile
+  Model.Updater
+  Spec.PathsAsSets Spec.RefValid Spec.Resolve Spec.Agree Spec.RefDiff Spec.Examples
+  Proofs.OrderLaws Proofs.PathSetLaws Proofs.SchemaOk Proofs.FieldSetBase Proofs.FieldSetPaths
+  Proofs.FieldSetWf Proofs.FieldSetLaws Proofs.RemoveAbsent Proofs.RemoveWf Proofs.ResolveLaws
+  Proofs.UpdaterLaws Proofs.UpdaterLaws2 Proofs.MergeLaws Proofs.MergeAgree
+  Proofs.RemoveFrame Proofs.EnLaws Proofs.NodeSet Proofs.KeyFields Proofs.VeqbResolve
+  Proofs.SetCheckers Proofs.ApplyEffect Proofs.RefDiffBoth Proofs.RefDiffLaws Proofs.RefDiffPresent
+  Proofs.ApplyInv Proofs.History.
+From SMD Require Import Proofs.RecordsHistory.
+Theorem C05_update_records_exact :
+  forall (c : config) (R : typeref -> Prop) (ver : string) (live : value) 
+           (mf : managed) (mgr : string) (obj : value) (o : tv) (mf' : managed),
+         setting_ok c R ver ->
+         state_ok c ver live mf ->
+         op_ok c ver (HUpdate mgr obj) ->
+         update_op c (ver, live) (ver, obj) ver mf mgr = UOk (o, mf') ->
+         let d := ref_diff (schema_of c ver) (tr_of c ver) live obj in
+         let touched :=
+           fun p : path => pmem p (rd_removed d) || pmem p (rd_modified d) || pmem p (rd_added d)
+           in
+         o = (ver, obj) /\
+         (forall p : path,
+          wf_path p = true ->
+          p <> nil ->
+          let before :=
+            match mf_get mgr mf with
+            | Some r => ps_has p (mr_set r)
+            | None => false
+            end in
+          let after :=
+            before && negb (pmem p (rd_removed d)) || pmem p (rd_modified d)
+            || pmem p (rd_added d) in
+          match mf_get mgr mf' with
+          | Some r' => mr_applied r' = false /\ mr_ver r' = ver /\ ps_has p (mr_set r') = after
+          | None => after = false
+          end) /\
+         (forall m : string,
+          m <> mgr ->
+          forall p : path,
+          wf_path p = true ->
+          p <> nil ->
+          match mf_get m mf with
+          | Some r =>
+              match mf_get m mf' with
+              | Some r' =>
+                  mr_applied r' = mr_applied r /\
+                  mr_ver r' = mr_ver r /\
+                  ps_has p (mr_set r') = ps_has p (mr_set r) && negb (touched p)
+              | None => ps_has p (mr_set r) && negb (touched p) = false
+              end
+          | None => mf_get m mf' = None
+          end) /\
+         (forall (m : string) (r' : mrec), mf_get m mf' = Some r' -> ps_empty (mr_set r') = false).
+Proof. exact update_records_exact. Qed.
+Print Assumptions C05_update_records_exact.
+
+Theorem C05_apply_records_exact :
+  forall (c : config) (R : typeref -> Prop) (ver : string) (live : value) 
+           (mf : managed) (mgr : string) (cfg : value) (force : bool) 
+           (o : option tv) (mf' : managed) (fs : pset),
+         setting_ok c R ver ->
+         state_ok c ver live mf ->
+         op_ok c ver (HApply mgr cfg force) ->
+         apply_op c (ver, live) (ver, cfg) ver mf mgr force = UOk (o, mf') ->
+         to_field_set (schema_of c ver) (tr_of c ver) cfg = Some fs ->
+         let res := match o with
+                    | Some t => snd t
+                    | None => live
+                    end in
+         let d := ref_diff (schema_of c ver) (tr_of c ver) live res in
+         let touched :=
+           fun p : path => pmem p (rd_removed d) || pmem p (rd_modified d) || pmem p (rd_added d)
+           in
+         match mf_get mgr mf' with
+         | Some r' =>
+             mr_applied r' = true /\
+             mr_ver r' = ver /\
+             (forall p : path, wf_path p = true -> p <> nil -> ps_has p (mr_set r') = ps_has p fs)
+         | None => ps_empty fs = true
+         end /\
+         (forall m : string,
+          m <> mgr ->
+          forall p : path,
+          wf_path p = true ->
+          p <> nil ->
+          match mf_get m mf with
+          | Some r =>
+              match mf_get m mf' with
+              | Some r' =>
+                  mr_applied r' = mr_applied r /\
+                  mr_ver r' = mr_ver r /\
+                  ps_has p (mr_set r') = ps_has p (mr_set r) && negb (touched p)
+              | None => ps_has p (mr_set r) && negb (touched p) = false
+              end
+          | None => mf_get m mf' = None
+          end).
+Proof. exact apply_records_exact. Qed.
+Print Assumptions C05_apply_records_exact.
+
+Theorem C05_update_records_exact_along_every_history :
+  forall (c : config) (R : typeref -> Prop) (ver : string) (ops : list hop) 
+           (mgr : string) (obj : value) (o : tv) (mf' : managed),
+         setting_ok c R ver ->
+         Forall (op_ok c ver) ops ->
+         op_ok c ver (HUpdate mgr obj) ->
+         let live := fst (run c ver ops) in
+         let mf := snd (run c ver ops) in
+         update_op c (ver, live) (ver, obj) ver mf mgr = UOk (o, mf') ->
+         let d := ref_diff (schema_of c ver) (tr_of c ver) live obj in
+         let touched :=
+           fun p : path => pmem p (rd_removed d) || pmem p (rd_modified d) || pmem p (rd_added d)
+           in
+         o = (ver, obj) /\
+         (forall p : path,
+          wf_path p = true ->
+          p <> nil ->
+          let before :=
+            match mf_get mgr mf with
+            | Some r => ps_has p (mr_set r)
+            | None => false
+            end in
+          let after :=
+            before && negb (pmem p (rd_removed d)) || pmem p (rd_modified d)
+            || pmem p (rd_added d) in
+          match mf_get mgr mf' with
+          | Some r' => mr_applied r' = false /\ mr_ver r' = ver /\ ps_has p (mr_set r') = after
+          | None => after = false
+          end) /\
+         (forall m : string,
+          m <> mgr ->
+          forall p : path,
+          wf_path p = true ->
+          p <> nil ->
+          match mf_get m mf with
+          | Some r =>
+              match mf_get m mf' with
+              | Some r' =>
+                  mr_applied r' = mr_applied r /\
+                  mr_ver r' = mr_ver r /\
+                  ps_has p (mr_set r') = ps_has p (mr_set r) && negb (touched p)
+              | None => ps_has p (mr_set r) && negb (touched p) = false
+              end
+          | None => mf_get m mf' = None
+          end) /\
+         (forall (m : string) (r' : mrec), mf_get m mf' = Some r' -> ps_empty (mr_set r') = false).
+Proof. exact update_records_exact_along_histories. Qed.
+Print Assumptions C05_update_records_exact_along_every_history.
+
+Theorem C05_apply_records_exact_along_every_history :
+  forall (c : config) (R : typeref -> Prop) (ver : string) (ops : list hop) 
+           (mgr : string) (cfg : value) (force : bool) (o : option tv) 
+           (mf' : managed) (fs : pset),
+         setting_ok c R ver ->
+         Forall (op_ok c ver) ops ->
+         op_ok c ver (HApply mgr cfg force) ->
+         let live := fst (run c ver ops) in
+         let mf := snd (run c ver ops) in
+         apply_op c (ver, live) (ver, cfg) ver mf mgr force = UOk (o, mf') ->
+         to_field_set (schema_of c ver) (tr_of c ver) cfg = Some fs ->
+         let res := match o with
+                    | Some t => snd t
+                    | None => live
+                    end in
+         let d := ref_diff (schema_of c ver) (tr_of c ver) live res in
+         let touched :=
+           fun p : path => pmem p (rd_removed d) || pmem p (rd_modified d) || pmem p (rd_added d)
+           in
+         match mf_get mgr mf' with
+         | Some r' =>
+             mr_applied r' = true /\
+             mr_ver r' = ver /\
+             (forall p : path, wf_path p = true -> p <> nil -> ps_has p (mr_set r') = ps_has p fs)
+         | None => ps_empty fs = true
+         end /\
+         (forall m : string,
+          m <> mgr ->
+          forall p : path,
+          wf_path p = true ->
+          p <> nil ->
+          match mf_get m mf with
+          | Some r =>
+              match mf_get m mf' with
+              | Some r' =>
+                  mr_applied r' = mr_applied r /\
+                  mr_ver r' = mr_ver r /\
+                  ps_has p (mr_set r') = ps_has p (mr_set r) && negb (touched p)
+              | None => ps_has p (mr_set r) && negb (touched p) = false
+              end
+          | None => mf_get m mf' = None
+          end).
+Proof. exact apply_records_exact_along_histories. Qed.
+Print Assumptions C05_apply_records_exact_along_every_history.
+
+Theorem C05_example_update :
+  setting_ok ex_config FieldSetLaws.ex_R "v1" /\
+         Forall (op_ok ex_config "v1") hx_ops /\
+         run ex_config "v1" hx_ops = (hx_obj, hx_mf) /\
+         op_ok ex_config "v1" (HUpdate "e" rx_obj) /\
+         update_op ex_config ("v1", hx_obj) ("v1", rx_obj) "v1" hx_mf "e" =
+         UOk ("v1", rx_obj, rx_mf_update) /\
+         (forall (o : tv) (mf' : managed),
+          update_op ex_config ("v1", hx_obj) ("v1", rx_obj) "v1" hx_mf "e" = UOk (o, mf') ->
+          o = ("v1", rx_obj) /\
+          (exists re : mrec,
+             mf_get "e" mf' = Some re /\
+             mr_applied re = false /\
+             ps_has (PEField "items" :: PEKey (("name", VStr "z") :: nil) :: PEField "vv" :: nil)
+               (mr_set re) = true /\
+             ps_has (PEField "mm" :: PEField "k" :: nil) (mr_set re) = false /\
+             ps_has (PEField "items" :: PEKey (("name", VStr "z") :: nil) :: nil) (mr_set re) =
+             false) /\
+          (exists rb : mrec,
+             mf_get "b" mf' = Some rb /\
+             mr_applied rb = false /\
+             ps_has (PEField "items" :: PEKey (("name", VStr "z") :: nil) :: PEField "vv" :: nil)
+               (mr_set rb) = false /\
+             ps_has (PEField "items" :: PEKey (("name", VStr "z") :: nil) :: nil) (mr_set rb) =
+             true /\
+             ps_has
+               (PEField "items" :: PEKey (("name", VStr "z") :: nil) :: PEField "name" :: nil)
+               (mr_set rb) = true) /\
+          mf_get "c" mf' = None /\
+          (exists ra : mrec,
+             mf_get "a" mf' = Some ra /\
+             mr_applied ra = true /\ ps_has (PEField "aa" :: nil) (mr_set ra) = true)).
+Proof. exact records_example_update. Qed.
+Print Assumptions C05_example_update.
+
+Theorem C05_example_apply :
+  op_ok ex_config "v1" (HApply "a" rx_cfg true) /\
+         apply_op ex_config ("v1", hx_obj) ("v1", rx_cfg) "v1" hx_mf "a" true =
+         UOk (Some ("v1", rx_res), rx_mf_apply) /\
+         (forall mf' : managed,
+          apply_op ex_config ("v1", hx_obj) ("v1", rx_cfg) "v1" hx_mf "a" true =
+          UOk (Some ("v1", rx_res), mf') ->
+          (exists ra : mrec,
+             mf_get "a" mf' = Some ra /\
+             mr_applied ra = true /\
+             ps_has (PEField "items" :: PEKey (("name", VStr "z") :: nil) :: PEField "vv" :: nil)
+               (mr_set ra) = true /\
+             ps_has (PEField "aa" :: nil) (mr_set ra) = false /\
+             ps_has (PEField "items" :: PEKey (("name", VStr "y") :: nil) :: nil) (mr_set ra) =
+             false) /\
+          (exists rb : mrec,
+             mf_get "b" mf' = Some rb /\
+             mr_applied rb = false /\
+             ps_has (PEField "items" :: PEKey (("name", VStr "z") :: nil) :: PEField "vv" :: nil)
+               (mr_set rb) = false /\
+             ps_has (PEField "items" :: PEKey (("name", VStr "z") :: nil) :: nil) (mr_set rb) =
+             true) /\
+          (exists rc : mrec,
+             mf_get "c" mf' = Some rc /\
+             mr_applied rc = true /\
+             ps_has (PEField "mm" :: PEField "k" :: nil) (mr_set rc) = true) /\
+          mf_get "d" mf' = None).
+Proof. exact records_example_apply. Qed.
+Print Assumptions C05_example_apply.
+
